@@ -84,6 +84,18 @@ def handle (p : List Sexp) : String :=
     match e.nat?, a.nat?, b.nat?, l.nat?, r.nat? with
     | some e, some a, some b, some l, some r => answer (boolStr (checkProperty e a b l r))
     | _, _, _, _, _ => answer "bad-case"
+  | [.list (.atom "jcd" :: items)] =>
+    -- unit correspondence of the conflict-detection model with the real calcTES / applicable
+    let ons : Option (List (List (List Nat))) := (fieldArgs items "ons").mapM fun o => match o with
+      | .list cs => cs.mapM fun c => match c with
+        | .list vs => vs.mapM Sexp.nat?
+        | _ => none
+      | _ => none
+    let ops := atomStrs (fieldArgs items "plan")
+    let leaves := (fieldArgs items "leaves").filterMap Sexp.nat?
+    match ons, Gms.JoinConflict.parseTree ops leaves with
+    | some ons, some t => answer (Gms.JoinConflict.showEdges (Gms.JoinConflict.buildEdges ons) t)
+    | _, _ => answer "bad-case"
   | [.list (.atom "c01" :: items)] =>
     let ordered := fieldArgs items "ordered" == [Sexp.atom "1"]
     -- keq stream: the term is evaluated on the NORMAL FORMS of the key columns (Gms.PhysKeys)
@@ -104,7 +116,8 @@ def handle (p : List Sexp) : String :=
       if check tys db q then
         let ops := atomStrs (fieldArgs items "plan")
         let spec := showRows ordered (eval db q)
-        let reg := match Gms.PhysRegions.region db q ops with
+        let leaves := (fieldArgs items "leaves").filterMap Sexp.nat?
+        let reg := match Gms.PhysRegions.region db q ops leaves with
           | some r => some r
           | none => if kss.isEmpty then none else Gms.PhysRegions.keqRegion kss rawDb q ops
         match reg with
